@@ -108,7 +108,7 @@ CHECKS = {
         text='Hybrid. Solver level: for the rows of the live opcode trie x prefix sets, every immediate and displacement of the decoded instruction is proved, for ALL byte values of the path, to be the '
              'zero- or sign-extension of 1, 2 or 4 consecutive little-endian instruction bytes, and length/raw bytes are those consumed. Arbiter level (labelled): at up to three witnesses per path '
              '(model, minimal, maximal free bytes) GNU objdump must report the same length, mnemonic and operands after both Intel renderings are parsed into one canonical operand structure.',
-        note='Trusted: z3, proxies, objdump 2.40 as the IA-32 reference at witnesses, the operand canonicaliser (vf/oracles/objdump.py). Strings objdump rejects or reads with a superfluous prefix are outside the quantifier. '
+        note='Trusted: z3, proxies, objdump 2.40 as the IA-32 reference at witnesses, the operand canonicaliser (vf/oracles/objdump.py). Strings objdump rejects or reads with a superfluous segment prefix are outside the quantifier (a repeated size prefix is not: prefix sets 66 66 / 67 67 are explored). '
              'Agreement with the architecture is decided per path at witnesses only, not for every byte value.',
         design='5/C01', engine='E2'),
     'C02': dict(
@@ -125,7 +125,7 @@ CHECKS = {
         text='Forward (solver): for every accepted line class and every candidate b with symbolic numbers the real decoder accepts b and consumes exactly len(b) bytes, for all number values of the path. '
              'Text layer (witnesses, labelled): asm(str(dis(b))) contains b at the path witness. Converse (solver): on every path of the symbolic decoder exploration the real Intel rendering, produced in render mode '
              '(symbolic numbers printed as placeholder numerals, sign by fork), goes through the real parser with the placeholders mapped back to the symbolic values, and the original bytes must be among the candidates for all byte values; '
-             'reported only for canonical encodings (GNU as reproduces exactly the bytes from the rendering at the witness).',
+             'reported only for canonical encodings (objdump\'s text of the bytes, assembled by GNU as, gives the bytes back).',
         note='Trusted: z3, proxies, GNU as as the producer of canonical encodings. Bounds as C02; rendering is concrete per witness (CPython string formatting is not encoded).',
         design='5/C03', engine='E2'),
     'C04': dict(
@@ -140,7 +140,7 @@ CHECKS = {
         level='model_checking',
         technique='E1 dependency queries (z3): for each decoded instruction, "two pre-states differing in one resource give different reference results" must be unsat for every resource outside the reported read set; writes compared with the reference',
         text='For every integer-core instruction (reference = vf/x86spec/sem.py) each register, flag and memory operand on which the reference result depends (SMT dependency query over all states) must be in get_instr_expr-derived read set; '
-             'every resource the reference can modify must be in the write set ("exists a state with post != pre" unsat otherwise). MMX/SSE instructions lifted through the uninterpreted MMX operator: operand inclusion on every decoder path (source operand, address registers, destination, flags of comis/ucomis/ptest) - structural. Partial claim: x87 is not covered.',
+             'every resource the reference can modify must be in the write set ("exists a state with post != pre" unsat otherwise); every memory location the reference reads must provably meet an ExprMem of the sets and every location it writes an ExprMem of the write set, in every state. MMX/SSE instructions lifted through the uninterpreted MMX operator: operand inclusion on every decoder path (source operand, address registers, destination, flags of comis/ucomis/ptest) - structural. Partial claim: x87 is not covered.',
         note='Trusted: z3, E1, the validated reference semantics. Bounds: one instruction, flat memory; over-approximation is accepted; self-dependency of conditionally preserved resources excluded.',
         design='5/C08', engine='E2+E1'),
     'C11': dict(
@@ -162,7 +162,7 @@ CHECKS = {
         technique='symbolic execution of the real decoder, of the real Intel and AT&T renderers in render mode (symbolic numbers as placeholder numerals) and of the real matching parsers; membership of the original bytes among the candidates as an SMT validity query (z3)',
         text='Partial claim (the miasmX-parser clause). On every path of the symbolic decoder exploration both renderings of the decoded instruction are produced by the real printer with every immediate / displacement symbolic, '
              'each is fed to the matching real parser (asm / asm_att) and the original bytes must be among the candidates for ALL byte values of the path - so operand order, size suffixes, sigils, memory layout and the fsub/fdiv reversal are exercised. '
-             'A miss is reported only for canonical encodings: GNU as, given the concrete rendering at the witness, yields exactly the original bytes. Arbiter level (labelled): at one witness per operand shape, for instructions a compiler emits, GNU as must accept the rendering in the matching syntax mode and objdump must read its encoding as the same instruction as the original bytes.',
+             'A miss is reported only for canonical encodings: objdump's text of the original bytes at the witness, assembled by GNU as, yields exactly those bytes (a criterion that does not look at miasmX's rendering). Arbiter level (labelled): at one witness per operand shape, for instructions a compiler emits, GNU as must accept the rendering in the matching syntax mode and objdump must read its encoding as the same instruction as the original bytes.',
         note='Trusted: z3, proxies, render mode (core.render_number; digit-string <-> integer conversion not modelled), GNU as 2.40 as canonicity filter. Bounds: thin ModRM slice, prefix sets (), (66) [+ (67) thorough], quick samples rows by seed.',
         design='5/C09 + 9', engine='E2'),
     'C10': dict(
@@ -170,8 +170,8 @@ CHECKS = {
         technique='symbolic execution of the real x86 decoder on symbolic byte strings (z3): exhaustive path sets per opcode row; witness replay for rendering/truncation/stream clauses',
         text='Decoder: for the rows of the live opcode trie x prefix sets, prefixes||opcode||11 symbolic bytes run through the real x86mnemo.dis; on every path the outcome is None or an instruction, '
              'no exception escapes, 0 < l <= len, no byte at index >= l is read (SBytes read monitor), the reported raw bytes equal the consumed input (SMT). At path witnesses (concrete, labelled so): both renderings, '
-             'every strict truncation is absent, stream offsets 0/1/5. Assembler totality: lines generated from the lexical alphabet (mnemonics, registers, size keywords, punctuation, numbers, names; <= 3 free tokens next to fixed operands) go through the real public asm() with every number symbolic: a list or the documented ValueError on every path.',
-        note='Trusted: z3, proxies. Bounds: 11 symbolic bytes, <= 2 prefixes per set, SIB restricted to 8 representatives; rendering and truncation at witnesses only.',
+             'every strict truncation is absent, stream offsets 0/1/5, and the decoder\'s length is not larger than objdump\'s (over-read). Assembler totality: lines generated from the lexical alphabet (mnemonics, registers, size keywords, punctuation, numbers, names; <= 3 free tokens next to fixed operands) go through the real public asm() with every number symbolic: a list or the documented ValueError on every path.',
+        note='Trusted: z3, proxies. Bounds: 11 symbolic bytes, <= 2 prefixes per set incl. doubled size prefixes (66 66, 67 67), SIB restricted to 8 representatives; rendering, truncation, stream and over-read clauses at witnesses only.',
         design='5/C10', engine='E2'),
 }
 
